@@ -43,6 +43,11 @@ func OracleFullVsMem(prefix string) SeqOracle {
 				if e.Cmd == 2 && e.Result == 3 {
 					e.Result = 6 // an unlock in a database no lock has touched yet: the connection layer answers UNKNOWN_DB, the engine UNLOCK_ERROR; both refuse
 				}
+				if e.Result == 9 {
+					// holds that end in the same sweep end in either order: the count an expiry notice carries depends on it
+					m[e.Client] = append(m[e.Client], fmt.Sprintf("r%d=%s id%x key%x d%x", e.Req, hapi.ResultName(e.Result), e.LockId[15], e.Key[15], e.Data))
+					continue
+				}
 				m[e.Client] = append(m[e.Client], fmt.Sprintf("r%d=%s lc%d lrc%d id%x key%x d%x", e.Req, hapi.ResultName(e.Result), e.LCount, e.LRCount, e.LockId[15], e.Key[15], e.Data))
 			}
 			for _, l := range m {
